@@ -1,5 +1,7 @@
 import BddVerif.Lemmas.ExactWalkC17
-/-! axiom audit: soundness of the drivers' exact memoised walks (Lemmas/ExactWalkC17.lean; C07 and C04 not done) -/
+import BddVerif.Lemmas.ExactWalkC07
+import BddVerif.Lemmas.ExactWalkC04
+/-! axiom audit: soundness of the drivers' exact memoised walks (Lemmas/ExactWalkC17.lean, ExactWalkC07.lean, ExactWalkC04.lean) -/
 #print axioms B.ExactWalk.forIn_inv_eq
 #print axioms B.ExactWalk.Loc.mono
 #print axioms B.ExactWalk.closed_sound
@@ -14,3 +16,47 @@ open B B.Drive B.ExactWalk in
 #eval C17.sameFunctionUnder exB exR exG
 open B B.Drive B.ExactWalk in
 #eval C17.sameFunctionUnder (#[⟨1, 0, 0⟩, ⟨1, 1, 1⟩, ⟨0, 0, 1⟩] : Arr) (#[⟨1, 0, 0⟩] : Arr) (fun _ => some 2000000)
+/-! C07 `compositionExact` -/
+#print axioms B.ExactWalk.closed_sound_gen
+#print axioms B.ExactWalk.comp_facts
+#print axioms B.ExactWalk.stepP_spec
+#print axioms B.ExactWalk.stepP_id
+#print axioms B.ExactWalk.skipX_spec
+#print axioms B.ExactWalk.evW_term
+#print axioms B.ExactWalk.norm_spec
+#print axioms B.ExactWalk.term_E
+#print axioms B.ExactWalk.kid_spec
+#print axioms B.ExactWalk.Loc7.mono
+#print axioms B.ExactWalk.good_final7
+#print axioms B.ExactWalk.compositionExact_sound
+#print axioms B.ExactWalk.compositionExact_sound_wfoB
+/-! satisfiable hypothesis: prints `some true`; a wrong result (`r := f`) is rejected: prints `some false` -/
+open B B.Drive B.ExactWalk in
+#eval C07.compositionExact ex7F ex7G ex7R 1 6000000
+open B B.Drive B.ExactWalk in
+#eval C07.compositionExact ex7F ex7G ex7F 1 6000000
+/-! C04 `walk2` / `walk3` -/
+#print axioms B.ExactWalk.invV_eq_inv
+#print axioms B.ExactWalk.inv_at
+#print axioms B.ExactWalk.cof_spec
+#print axioms B.ExactWalk.M3.mono
+#print axioms B.ExactWalk.Loc3.mono
+#print axioms B.ExactWalk.kid3_spec
+#print axioms B.ExactWalk.term3_E
+#print axioms B.ExactWalk.walk2_post
+#print axioms B.ExactWalk.walk2_sound
+#print axioms B.ExactWalk.walk2_sound_driver
+#print axioms B.ExactWalk.M4.mono
+#print axioms B.ExactWalk.Loc4.mono
+#print axioms B.ExactWalk.kid4_spec
+#print axioms B.ExactWalk.term4_E
+#print axioms B.ExactWalk.walk3_post
+#print axioms B.ExactWalk.walk3_sound
+#print axioms B.ExactWalk.walk3_sound_driver
+/-! satisfiable hypothesis: prints `true`; without the flip the same result is rejected: prints `false` -/
+open B B.Drive B.ExactWalk in
+#eval (C04.walk2 ex4X ex4L ex4R 2 (· && ·) (some 1) none none 4 (root ex4X) (root ex4L) (root ex4R) {}).1
+open B B.Drive B.ExactWalk in
+#eval (C04.walk2 ex4X ex4L ex4R 2 (· && ·) none none none 4 (root ex4X) (root ex4L) (root ex4R) {}).1
+open B B.Drive B.ExactWalk in
+#eval (C04.walk3 ex4X ex4L ex4R ex4R 2 (fun a b c => a && b && c) (some 1) none none none 4 (root ex4X) (root ex4L) (root ex4R) (root ex4R) {}).1
